@@ -90,6 +90,32 @@ Fixpoint d_reads (d : drc) (sizes : list nat) : drc :=
 
 Definition d_init (segs : list nat) (f : final) : drc := mkd (mku segs f false 0) false.
 
+(* ---- bodies of any size: the machine in units of S m bytes ----
+   A body whose segments hold whole multiples of a unit (S m bytes), read into buffers that are multiples of the
+   unit, behaves as the same body counted in units: every Read returns S m times as much, with the same
+   error. A segment of S s units holds S s * S m = S (scale_seg m s) bytes. Correspondence cases with bodies of
+   hundreds of KiB or MiB left unread at Close are given in units (the observed byte counts are compared with
+   the unit count times the unit); that this is the same machine is proved (C12_drain_any_unit). *)
+Definition scale_seg (m s : nat) : nat := s * S m + m.
+Definition scale_under (m : nat) (u : under) : under :=
+  mku (map (scale_seg m) (u_segs u)) (u_fin u) (u_finished u) (u_closes u).
+Definition scale_drc (m : nat) (d : drc) : drc := mkd (scale_under m (d_u d)) (d_seen d).
+
+(* a wrong Close: the drain gives up after cap Reads (a bounded io.CopyN instead of io.Copy) and closes what is left *)
+Fixpoint drain_upto (cap : nat) (b : nat) (u : under) : under :=
+  match cap with
+  | O => u
+  | S f =>
+    let '(_, r, u') := uread u (S b) in
+    match r with
+    | RNil => drain_upto f b u'
+    | _ => u'
+    end
+  end.
+Definition d_close_capped (cap b : nat) (d : drc) : drc :=
+  if d_seen d then mkd (uclose (d_u d)) true
+  else mkd (uclose (drain_upto cap b (d_u d))) false.
+
 (* ====================== (ii) one call ====================== *)
 
 Inductive onfail := Abort | SkipCopy | Ignore.
@@ -374,6 +400,26 @@ Definition effective_deadline_nonpositive_as_none (parent : option Z) (now timeo
   else match parent with
        | None => Some (now + timeout)%Z
        | Some p => Some (Z.min p (now + timeout))
+       end.
+
+(* The http.Client in use (the runtime's own, one given to NewWithClient, ClientOperation.Client) may have a
+   Timeout of its own: client > 0 arms a further deadline now + client for the whole exchange (net/http: a Timeout
+   of zero or less means none). It comes ON TOP of the request timeout and the caller's deadline: it can end the
+   call earlier, never later. *)
+Definition effective_deadline_with_client (parent : option Z) (now timeout client : Z) : option Z :=
+  let d := effective_deadline parent now timeout in
+  if (client <=? 0)%Z then d
+  else match d with
+       | None => Some (now + client)%Z
+       | Some x => Some (Z.min x (now + client))
+       end.
+
+(* a wrong reading: a client with its own Timeout is left to that timer alone, the request timeout is not applied *)
+Definition effective_deadline_client_instead (parent : option Z) (now timeout client : Z) : option Z :=
+  if (client <=? 0)%Z then effective_deadline parent now timeout
+  else match parent with
+       | None => Some (now + client)%Z
+       | Some p => Some (Z.min p (now + client))
        end.
 
 (* the latest moment a call may return: the effective deadline, but not before the call began *)
